@@ -33,6 +33,14 @@ def _lists(draw, tier, kind):
                                  max_spikes=8 if tier == "quick" else 20))
     c = gen.to_times(g)
     c["kind"] = kind
+    if kind == "merge" and draw(st.booleans()):
+        # trains recorded on different intervals: the merged train lives on the first one's
+        q, k0, n = g["q"], g["k0"], g["n"]
+        c["edges"] = []
+        for tr in g["trains"]:
+            lo = draw(st.integers(0, min(min(tr), n - 1) if tr else n - 1))
+            hi = draw(st.integers(max(max(tr) if tr else 0, lo + 1), n))
+            c["edges"].append([(k0 + lo) / q, (k0 + hi) / q])
     if kind == "psth":
         n, q = g["n"], g["q"]
         u = (1 << 14) if g.get("fine") else 1      # bins stay on the coarse grid
@@ -149,6 +157,9 @@ def run_case(case, ctx):
                                                         case["t0"], case["t1"]))
         return
     sts = ps.trains(case)
+    if case.get("edges"):
+        for s_, e in zip(sts, case["edges"]):
+            s_.t_start, s_.t_end = e
     before = [s.spikes.tobytes() for s in sts]
     if k == "merge":
         m = ctx.call("merge_spike_trains", pyspike.merge_spike_trains, sts)
@@ -157,8 +168,10 @@ def run_case(case, ctx):
         ctx.check(collections.Counter(got) == collections.Counter(exp), "merge_multiset",
                   lambda: "trains %r merged to %r" % (case["trains"], got))
         ctx.check(got == sorted(got), "merge_not_sorted", lambda: "%r" % got)
-        ctx.check(m.t_start == case["t0"] and m.t_end == case["t1"], "merge_edges",
-                  lambda: "[%r,%r]" % (m.t_start, m.t_end))
+        e0, e1 = case["edges"][0] if case.get("edges") else (case["t0"], case["t1"])
+        ctx.check(m.t_start == e0 and m.t_end == e1, "merge_edges",
+                  lambda: "merged train on [%r,%r], first train on [%r,%r]"
+                  % (m.t_start, m.t_end, e0, e1))
     else:
         f = ctx.call("psth", pyspike.psth, sts, case["bin"])
         x = np.asarray(f.x, dtype=float)
